@@ -42,7 +42,7 @@ func init() {
 					cells = append(cells, "deny/"+rule+"/"+pos)
 				}
 			}
-			cells = append(cells, "deny/first-aud/first", "deny/root/last", "dev/foreign-root", "dev/swap", "dev/dup", "dev/repeat", "dev/repeat-at-end", "dev/truncate", "dev/non-delegation", "sloppy-loader/nil-nil", "sloppy-loader/panics", "sloppy-loader/token-and-error")
+			cells = append(cells, "deny/first-aud/first", "deny/root/last", "dev/foreign-root", "dev/swap", "dev/dup", "dev/repeat", "dev/repeat-at-end", "dev/alias-cid", "dev/repeat-alias-cid", "dev/truncate", "dev/non-delegation", "sloppy-loader/nil-nil", "sloppy-loader/panics", "sloppy-loader/token-and-error")
 			for n := 1; n <= 6; n++ {
 				cells = append(cells, fmt.Sprintf("allow/n=%d", n))
 			}
@@ -88,6 +88,11 @@ func deviate(r *rand.Rand, s *chain.Scenario) {
 		s.Links = nil
 		s.Deviations = append(s.Deviations, "empty")
 	case 1:
+		if r.IntN(3) == 0 {
+			s.Links[i].AliasCID = true
+			s.Deviations = append(s.Deviations, fmt.Sprintf("alias-cid@%d", i))
+			return
+		}
 		s.Links[i].Missing = true
 		s.Deviations = append(s.Deviations, fmt.Sprintf("missing@%d", i))
 	case 2:
@@ -138,6 +143,11 @@ func deviate(r *rand.Rand, s *chain.Scenario) {
 			l = s.Links[i]
 			l.RepeatID, l.ID = l.ID, 0
 			name = "repeat"
+			if r.IntN(2) == 0 {
+				// ... the second time under another CID of the same bytes, unknown to the loader
+				l.AliasCID = true
+				name = "repeat-alias-cid"
+			}
 			if r.IntN(2) == 0 {
 				s.Links = append(s.Links, l)
 				s.Deviations = append(s.Deviations, fmt.Sprintf("repeat-at-end@%d", i))
